@@ -146,7 +146,22 @@ def check(F, rep, tier):
             else: rep.bad("R17.2", "format-helper", "%s does not call DateTime::format(dt, format_str) on its own parameters" % target, h.where())
         # R17.4 the instant: DateTime::from_timestamp(timestamp as i64, 0) of the parameter
         ft = [(bi, t) for bi, t in rt.calls() if (mir.callee(t) or "").endswith("DateTime::<chrono::Utc>::from_timestamp") or (mir.callee(t) or "").endswith("::from_timestamp")]
-        if ft:
+        checked_conv = False
+        if not ft:
+            # `i64::try_from(timestamp).ok().and_then(|s| DateTime::from_timestamp(s, 0))`: the checked form of the same instant
+            for c_ in mir.closures_in(F, rt):
+                for b3, t3 in c_.calls():
+                    if not (mir.callee(t3) or "").endswith("::from_timestamp"): continue
+                    if not all(o.kind == "param" for o in mir.trace_op(c_, t3[2][0])) or mir.const_arg(c_, t3[2][1]) != 0: continue
+                    for b4, t4 in rt.calls():
+                        if not (mir.callee(t4) or "").endswith("Option::<T>::and_then") or len(t4[2]) < 2: continue
+                        if not any(o.kind == "agg" and isinstance(mir.rv_at(o.fn, *o.data)[1], dict) and mir.rv_at(o.fn, *o.data)[1].get("path") == c_.path for o in mir.trace_op(rt, t4[2][1], transparent=())): continue
+                        tf_ = [int(d) for k, d in mir.deep_origins(rt, t4[2][0], stop=()) if k == "call" and d.isdigit() and (mir.callee(rt.blocks[int(d)]["t"]) or "").endswith("::try_from")]
+                        if tf_ and all(o.kind == "param" and o.data == 2 for b5 in tf_ for o in mir.trace_op(rt, rt.blocks[b5]["t"][2][0])) and ("chrono::Utc" in (t3[1].get("full") or "") or "chrono::DateTime<chrono::Utc>" in " ".join(rt.locals)):
+                            checked_conv = True
+        if checked_conv:
+            rep.ok("R17.4", "instant = i64::try_from(timestamp) then DateTime::<Utc>::from_timestamp(seconds, 0): out-of-range values are refused, not wrapped", nontrivial_key="instant")
+        elif ft:
             bi, t = ft[0]
             src = mir.trace_op(rt, t[2][0])
             nanos = mir.const_arg(rt, t[2][1])
@@ -257,6 +272,9 @@ def check(F, rep, tier):
             else: rep.undecided("R17.6", "calver-core-shape", "how calver_core builds its component list is not recognised", cc.where())
         else: rep.bad("R17.6", "calver-core", "calver_core is %s, expected [ts(YYYY), ts(MM), ts(DD), var(Patch)]" % elems, cc.where())
     # ---- R17.7 dependencies: the instant that is formatted is the commit time git reports, or the one given on the command line -------
+    # ---- R17.11 a timestamp is never wrapped on its way to chrono: u64 -> i64 by `as` turns values >= 2^63 into dates before 1970 --------
+    import parsers as _ps
+    _ps.narrowing_casts(F, rep, "R17.11", ("crate::version::zerv::utils::timestamp::", "crate::cli::utils::template::functions::format_timestamp_function"), "timestamps handed to chrono", sign=True, floor=2)
     core.borrow(F, rep, "c02", "C02", "R17.7", ("argv:get_commit_timestamp#0", "argv:get_tag_timestamp#0", "tag-peel", "wiring:bumped_timestamp", "wiring:last_timestamp"), "the timestamps are the committer dates of HEAD and of the tagged commit")
     core.borrow(F, rep, "c05", "C05", "R17.7", ("override-depends-on-value:bumped_timestamp",), "--bumped-timestamp is applied whenever it is given (0 = the epoch included)")
     core.borrow(F, rep, "c02", "C02", "R17.7", ("error-swallowed:get_commit_timestamp", "error-swallowed:get_tag_timestamp"), "a commit time git could not report is an error, not the epoch")
